@@ -1,6 +1,6 @@
 //! rs2lean — regenerates `lean/Amqp/Gen/*.lean` from `/repo`'s working tree.
 //!
-//! usage: rs2lean <repo-root> <out-dir>
+//! usage: rs2lean <repo-root> <out-dir> [<harness/src/gen_typed.rs>]
 //!
 //! Exit status 0: all generated files written (only when their content
 //! changed).  Exit status 2: an item the model depends on could not be found
@@ -13,6 +13,7 @@ mod gen_fsm;
 mod gen_kernels;
 mod gen_panics;
 mod gen_sasl;
+mod gen_schema;
 mod gen_txn;
 
 use std::path::{Path, PathBuf};
@@ -38,8 +39,8 @@ impl Out {
 
 fn main() {
     let args: Vec<String> = std::env::args().collect();
-    if args.len() != 3 {
-        eprintln!("usage: rs2lean <repo-root> <out-dir>");
+    if args.len() != 3 && args.len() != 4 {
+        eprintln!("usage: rs2lean <repo-root> <out-dir> [<generated rust file of the harness>]");
         std::process::exit(64);
     }
     let root = Path::new(&args[1]);
@@ -57,6 +58,7 @@ fn main() {
     gen_sasl::generate(&mut src, &mut out);
     gen_txn::generate(&mut src, &mut out);
     gen_panics::generate(&mut src, &mut out);
+    gen_schema::generate(&mut src, &mut out, args.get(3).map(Path::new));
 
     for w in &out.written {
         println!("rs2lean: {}", w);
